@@ -285,6 +285,7 @@ def main(tier):
     chk.assumptions = ['binary/unary ARITHMETIC expressions and scalar products whose operand is an EMPTY vector (dimension 0) are excluded from the histories: the kernels state size>=1 as a precondition (SQUIDS_COMPILER_ASSUME) and the property quantifies over dimensions 2..6; every other operation is exercised on empty vectors too', 'single logical thread',
                        'allocation failure is C16; dimensions 2..6']
     Pool(nslots=NSLOTS)
+    pool_interp_vs_native(chk, sample_programs() if tier == 'thorough' else sample_programs()[:6], nslots=NSLOTS)
     build.ir_for('c15s.cpp', ('SUNalg.cpp', 'SQuIDS.cpp', 'const.cpp'), ('gsl_shim.c',))
     with MPool(min(16, os.cpu_count() or 1)) as mp:
         rs_solver = mp.apply_async(work_solver, ((0, tier),))
